@@ -239,6 +239,20 @@ def gen_dd(rng, big=False):
     }
     info = {"pgsz": pgsz, "maxpfn": maxmapnr, "pfns": pfns, "methods": meths,
             "key": "dd w%d be%d pad%d v%d pg%d two%d" % (64 if w64 else 32, be, pad, ver, shift, two)}
+    if ver >= 2 and maxmapnr >= 4 and rng.random() < 0.3:
+        # a split set: non-empty, pairwise disjoint windows that cover [0, max_mapnr), files in any order
+        nf = rng.randint(2, min(4, maxmapnr))
+        cuts = sorted(rng.sample(range(1, maxmapnr), nf - 1))
+        if pfns and rng.random() < 0.5:                  # cut right at / next to a stored page
+            c = max(1, min(maxmapnr - 1, rng.choice(pfns) + rng.choice([0, 1])))
+            cuts = sorted(set(cuts[:-1] + [c]))
+            nf = len(cuts) + 1
+        bounds = [0] + cuts + [maxmapnr if rng.random() < 0.5 else (1 << 32) - 1 if (not w64 and ver < 6) else (1 << 40)]
+        wins = [(bounds[i], bounds[i + 1]) for i in range(nf)]
+        rng.shuffle(wins)
+        lay["splits"] = ".".join("%x-%x" % w for w in wins)
+        info["nfiles"] = nf
+        info["key"] += " split%d" % nf
     return lay, entries, info
 
 
